@@ -605,9 +605,10 @@ func swarmConfigs(thorough bool) []swarmCfg {
 	L, L2, P := peerSpec{name: "L"}, peerSpec{name: "L2"}, peerSpec{name: "P", seeder: true}
 	if !thorough {
 		return []swarmCfg{
-			{name: "scheduler swarm: limit 1, S + leecher L, 2 pieces", maxConn: 1, blob: "abc", pieceLen: 2, others: []peerSpec{L}, ticks: 2, bound: 2},
+			{name: "scheduler swarm: limit 1, S + leecher L, 2 pieces", maxConn: 1, blob: "abc", pieceLen: 2, others: []peerSpec{L}, ticks: 2, faults: 1, bound: 2},
 			{name: "scheduler swarm: limit 1, S + leaving seeder P, 2 pieces", maxConn: 1, blob: "abc", pieceLen: 2, others: []peerSpec{P}, ticks: 2, faults: 1, bound: 2},
 			{name: "scheduler swarm: limit 2, S + leechers L and L2, 1 piece", maxConn: 2, blob: "ab", pieceLen: 2, others: []peerSpec{L, L2}, ticks: 2, bound: 2},
+			{name: "scheduler swarm: limit 2, S + leecher L + leaving seeder P, 2 pieces", maxConn: 2, blob: "abc", pieceLen: 2, others: []peerSpec{L, P}, ticks: 2, bound: 2},
 		}
 	}
 	return []swarmCfg{
